@@ -3,6 +3,7 @@ import LekkerVerif.Model.DriverStack
 import LekkerVerif.Model.DriverParams
 import LekkerVerif.Model.DriverWiring
 import LekkerVerif.Model.DriverSplit
+import LekkerVerif.Model.DriverPrune
 /-! Driver ops.  Each op runs executable definitions of the model on the decoded request. -/
 open Lean
 
@@ -134,6 +135,7 @@ def dispatch (j : Json) : Json :=
   | some "rename" => opRename j
   | some "wiring" => opWiring j
   | some "split" => opSplit j
+  | some "prune" => opPrune j
   | some "ping" => Json.mkObj [("ok", true)]
   | _ => errJson "unknown-op"
 
